@@ -50,6 +50,9 @@ LeavesOf(f) ==
            \* the end of the embedded program and must skip those of nested string literals
            {Lit(1), Lit(2), Emp, W("dup"), W("elem"), Seq12, Str(<<")">>), Str(<<"(", "a">>), W("add"), W("drop")}
       [] f = "blocks" -> {Name("A"), Name("B"), Lit(3)}
+      \* blocks with parameters inside blocks: a nested block captures names that its enclosing block binds
+      \* itself (X, Y) next to names that reach it through the enclosing block's environment (A), in any order of use
+      [] f = "upvals" -> {Name("A"), Name("X"), Name("Y")}
       \* who sees which binding: operands of infix operators, branches, sub-expressions, all binding and reading A / B
       [] f = "scopes" -> {Name("A"), Name("B"), Lit(1), Lit(2)}
       [] f = "scale" -> ScalePrograms
@@ -68,6 +71,7 @@ UnaryOf(f) ==
            {"letA", "letAB", "scopeA", "capA", "subA", "bapply", "letF", "star"}
       [] f = "fmt" -> {"fmt1", "fmt2", "fmts", "cap", "opt"}
       [] f = "blocks" -> {"bapply", "letFcall"}
+      [] f = "upvals" -> {"bapply", "bapplyX", "bapplyY"}
       [] f = "scopes" -> {"letA", "letB", "scopeA", "subA", "capA", "sub?", "fmt1"}
       [] f = "refeed" -> {"let1", "fmt1", "opt", "star", "sub?"}
       [] f = "shadow" -> {"bapply", "scopeL", "letL", "letFcall"}
@@ -81,6 +85,7 @@ BinaryOf(f) ==
       [] f = "names" -> {"cat", "alt", "or"}
       [] f = "fmt" -> {"cat", "alt", "fmt3"}
       [] f = "blocks" -> {"cat"}
+      [] f = "upvals" -> {"cat"}
       [] f = "scopes" -> {"cat", "eq", "alt", "or"}
       [] f = "refeed" -> {"cat", "or"}
       [] f = "shadow" -> {"cat"}
@@ -108,6 +113,8 @@ MkUnary(u, a) ==
       [] u = "capA" -> CapB(<<"A">>, a)
       [] u = "subA" -> SubB("?", <<"A">>, a)
       [] u = "bapply" -> BApply(a)
+      [] u = "bapplyX" -> BApplyB(<<"X">>, a)
+      [] u = "bapplyY" -> BApplyB(<<"Y">>, a)
       [] u = "letF" -> LetF("F", a)
       [] u = "letFcall" -> Cat(LetF("F", a), Name("F"))
 
@@ -239,7 +246,7 @@ UsesBlocksParts(parts, j) ==
 
 \* what a family puts between the input source and the body
 Prefix(f) ==
-    IF f \in {"blocks", "scopes", "shadow", "scale"} THEN Cat(Let(<<"A">>, Emp), Let(<<"B">>, Lit(7)))   \* let A := ; let B := 7;
+    IF f \in {"blocks", "upvals", "scopes", "shadow", "scale"} THEN Cat(Let(<<"A">>, Emp), Let(<<"B">>, Lit(7)))   \* let A := ; let B := 7;
     ELSE Emp
 
 \* The body is legal on a stack of depth d: names closed, effect defined.
